@@ -627,6 +627,22 @@ def run_settings(rep, rng, sb: Path):
         ok = await fetch(f"https://127.0.0.1:{tls.port}/repo", proxy=Proxy(True, None, f"http://127.0.0.1:{px.port}", None, None),
                          verify=str(certs / "ca.pem"))
         check("https via CONNECT proxy", ok and len(px.log) > n0 and px.log[-1][0] == "CONNECT", True)
+        # a redirect to the other scheme: every hop goes through the proxy configured for ITS scheme
+        px2 = ForwardProxy()
+        await px2.start()
+        hop = ScriptedServer({"/repo/f": {"first": [], "rest": {"status": 302, "redirect": f"https://127.0.0.1:{tls.port}/repo/f"}}})
+        await hop.start()
+        n1, n2 = len(px.log), len(px2.log)
+        ok = await fetch(f"http://127.0.0.1:{hop.port}/repo",
+                         proxy=Proxy(True, f"127.0.0.1:{px.port}", f"http://127.0.0.1:{px2.port}", None, None),
+                         verify=str(certs / "ca.pem"))
+        first_hop = [e for e in px.log[n1:]]
+        second_hop = [e for e in px2.log[n2:]]
+        check("http -> https redirect: first hop through http_proxy, second through https_proxy (CONNECT)",
+              ok and bool(first_hop) and all(e[0] != "CONNECT" for e in first_hop)
+              and bool(second_hop) and second_hop[-1][0] == "CONNECT", True)
+        await hop.stop()
+        await px2.stop()
         # TLS verification
         check("https with configured CA bundle", await fetch(f"https://127.0.0.1:{tls.port}/repo", verify=str(certs / "ca.pem")), True)
         check("https with default CAs rejects the private CA", await fetch(f"https://127.0.0.1:{tls.port}/repo", verify=True), False)
